@@ -118,6 +118,17 @@ class ChannelHook:
                 last = eng.force(eng.list_index(ob, VInt(z3.IntVal(-1)), node))
                 eng.oblige("%s/C19-interim-response-is-queued-behind-all-pending-output" % eng.cur_func, eng.identical(eng.force(args[0]), last),
                            clause="the buffer send_continue() appends to is self.outbufs[-1]", kind="assert")
+        if name == "append" and qual.startswith("buffers.") and me0 is not None and me0.cls == CH and eng.cur_func.split("@")[0].endswith("send_continue") and len(args) > 1:
+            tot = eng.force(eng.state.heap[(me0.oid, "total_outbufs_len")])
+            data = eng.force(args[1])
+            if isinstance(tot, VInt) and isinstance(data, VStr):
+                eng.state.ghost["interim_expected_total"] = tot.t + z3.Length(data.t)
+        if name == "_flush_some" and me0 is not None and me0.cls == CH and eng.cur_func.split("@")[0].endswith("send_continue"):
+            exp = eng.state.ghost.get("interim_expected_total")
+            tot = eng.force(eng.state.heap[(me0.oid, "total_outbufs_len")])
+            eng.oblige("%s/C19-the-interim-line-is-counted-in-the-backlog" % eng.cur_func,
+                       (tot.t == exp) if exp is not None else z3.BoolVal(False),
+                       clause="when send_continue() flushes, total_outbufs_len == (its value before the append) + len(interim line)", kind="assert")
         if name == "received" and qual.split(".")[0] == "channel":
             eng.state.ghost["received_called"] = True
         if eng.role == "W" and name in self.TEARDOWN and qual.split(".")[0] in ("channel", "wasyncore"):
@@ -399,7 +410,9 @@ def install_service(reg):
         requires=[("worker", "role_is('W')"), ("owns-connection", "len(self.requests) >= 1")],
         rely=[("token-stable-until-this-worker-pops", "len(self.requests) >= 1 or popped()")],
         ensures=[("C09-request-popped-or-connection-closing", "popped() or self.close_when_flushed"),
-                 ("C05-W2-io-woken-after-service", "implies(self.connected, pulled())")],
+                 ("C05-W2-io-woken-after-service", "implies(self.connected, pulled())"),
+                 # a connection that has just finished a request gets a full channel_timeout of idle time from that moment
+                 ("C18-finishing-a-request-restarts-the-idle-clock", "activity_refreshed()")],
         ensures_exc=[("C09-request-popped-or-connection-closing", "popped() or self.close_when_flushed")],
         loops={0: LoopSpec(invariants=[("lock", "holds('requests_lock')"),
                                        ("C11-close-decision-published-before-the-queue-is-dropped", "self.close_when_flushed")])}))
